@@ -345,9 +345,9 @@ Fixpoint unfold (fuel : nat) (ign : bool) (st : pstate) : option (list (list Z))
                  match (if d =? END then Some [p_path st] else
                           match find_seg d (p_segs st) with
                           | None => None
-                          | Some _ => unfold f ign (jump ign st d) end), go r with
-                 | Some a, Some b => Some (a ++ b)
-                 | _, _ => None
+                          | Some _ => unfold f ign (jump ign st d) end) with
+                 | None => None                       (* the exception aborts the whole search *)
+                 | Some a => match go r with Some b => Some (a ++ b) | None => None end
                  end
              end) ds
       end
